@@ -651,9 +651,8 @@ func main() {
 									for _, st := range starts {
 										fm.Eval(wMsg{Query: q, Kind: kind, N: n, Page: page, IDs: idp, Dates: dp, Via: via, Start: st})
 									}
-									// placeholders inside full, non-final pages (pages of >= 2 entries, so that no page consists of
-									// placeholders only - that case is not explored)
-									if page >= 2 && n >= 2 && dp == "distinct" {
+									// placeholders inside full, non-final pages (with page size 1: pages that consist of a placeholder only)
+									if n >= 2 && dp == "distinct" {
 										fm.Eval(wMsg{Query: q, Kind: kind, N: n, Page: page, IDs: idp, Dates: dp, Via: via, Empties: true})
 									}
 								}
